@@ -16,9 +16,11 @@ import (
 	"errors"
 	"fmt"
 	"io"
+	"runtime"
 	"sort"
 	"strings"
 	"sync"
+	"sync/atomic"
 	"testing"
 	"testing/synctest"
 	"time"
@@ -27,6 +29,7 @@ import (
 	"github.com/postalsys/muti-metroo/internal/identity"
 	"github.com/postalsys/muti-metroo/internal/protocol"
 	"github.com/postalsys/muti-metroo/internal/stream"
+	rh "github.com/postalsys/muti-metroo/verifharness/relayh"
 	"github.com/postalsys/muti-metroo/verifharness/vh"
 )
 
@@ -66,6 +69,143 @@ type Replay struct {
 	Name  string `json:"name"`
 	Steps []Step `json:"steps"`
 	Obs   []Obs  `json:"obs,omitempty"`
+	// endpoint cases: STREAM_DATA frames (some carrying FIN together with data)
+	// delivered to a real exit / forward handler with a loopback destination
+	Endpoint string        `json:"endpoint,omitempty"` // exit | forward
+	Frames   []rh.FinFrame `json:"frames,omitempty"`
+	Seen     []rh.XEv      `json:"seen,omitempty"`
+	// stress cases: FIN racing a local CloseWrite / Close on fresh streams
+	Stress string `json:"stress,omitempty"` // closewrite | close
+	Rounds int    `json:"rounds,omitempty"`
+}
+
+// ---------------------------------------------------------------------------
+// endpoints: data that arrives together with the end-of-write signal reaches
+// the destination before its end of stream
+
+func runEndpoint(c *vh.Ctx, rp Replay) (string, bool) {
+	seen, note := rh.RunExitFin(rp.Endpoint, rp.Frames)
+	if note != "" {
+		c.Fail("harness-timeout", rp.Name+": "+note, rp)
+		return "", false
+	}
+	rp.Seen = seen
+	// monitor: everything sent up to and including the FIN frame, in order, then EOF
+	var want []uint64
+	fin := false
+	for _, f := range rp.Frames {
+		if f.Tag != 0 {
+			want = append(want, f.Tag)
+		}
+		if f.Fin {
+			fin = true
+			break
+		}
+	}
+	var got []uint64
+	eofAt := -1
+	for _, e := range seen {
+		if e.Kind == 1 {
+			eofAt = len(got)
+		} else {
+			got = append(got, e.Tag)
+		}
+	}
+	if fin && (eofAt != len(want) || fmt.Sprint(got) != fmt.Sprint(want)) {
+		c.Fail("endpoint-data-lost-or-after-eof", fmt.Sprintf("%s: %s handler: frames %+v: the destination must see %v and then end of stream; it saw data %v with end of stream after %d item(s)", rp.Name, rp.Endpoint, rp.Frames, want, got, eofAt), rp)
+	}
+	if !fin && (eofAt >= 0 || fmt.Sprint(got) != fmt.Sprint(want)) {
+		c.Fail("endpoint-spurious-eof-or-loss", fmt.Sprintf("%s: %s handler: frames %+v: destination saw %v, eof at %d", rp.Name, rp.Endpoint, rp.Frames, got, eofAt), rp)
+	}
+	fr := make([]string, 0, len(rp.Frames))
+	for _, f := range rp.Frames {
+		fr = append(fr, fmt.Sprintf("(%s, %s)", vh.CoqBool(f.Fin), vh.CoqN(f.Tag)))
+		if f.Fin {
+			break
+		}
+	}
+	ev := make([]string, len(seen))
+	for i, e := range seen {
+		if e.Kind == 1 {
+			ev[i] = "XEof"
+		} else {
+			ev[i] = "XGot " + vh.CoqN(e.Tag)
+		}
+	}
+	c.Count("endpoint:" + rp.Endpoint)
+	c.Case(fmt.Sprintf("endpoint/%s/%+v", rp.Endpoint, rp.Frames), fin, rp)
+	return fmt.Sprintf("(%s, %s)", vh.CoqList(fr), vh.CoqList(ev)), true
+}
+
+// ---------------------------------------------------------------------------
+// stress: the remote FIN races a local CloseWrite (or Close) on a fresh stream
+// with a reader parked in Read. Every interleaving of the two calls must end in
+// CLOSED with writes refused (C18_transitions / C18_write_refused_after_half_close
+// hold for every interleaving, so the unchanged code can never fail this).
+
+var stressSink atomic.Int64
+
+func runStress(c *vh.Ctx, rp Replay) {
+	m := stream.NewManager(stream.DefaultManagerConfig(), identity.AgentID{1})
+	defer m.Close()
+	for round := 0; round < rp.Rounds; round++ {
+		id := uint64(round + 1)
+		s, err := m.AcceptStream(id, id, identity.AgentID{9}, "dest", 80)
+		if err != nil {
+			c.Fail("panic", err.Error(), rp)
+			return
+		}
+		ctx, cancel := context.WithCancel(context.Background())
+		readerParked := make(chan struct{})
+		readerDone := make(chan struct{})
+		go func() {
+			close(readerParked)
+			s.Read(ctx)
+			close(readerDone)
+		}()
+		<-readerParked
+		time.Sleep(20 * time.Microsecond) // let the reader reach its select
+		// both calls are released together by a spin barrier, with a sweeping skew
+		var wg sync.WaitGroup
+		var armed atomic.Int32
+		var goFlag atomic.Bool
+		wg.Add(2)
+		run := func(skew int, f func()) {
+			defer wg.Done()
+			armed.Add(1)
+			for !goFlag.Load() {
+			}
+			for k := 0; k < skew; k++ {
+				stressSink.Add(1)
+			}
+			f()
+		}
+		go run(0, func() { m.HandleStreamData(id, protocol.FlagFinWrite, nil) })
+		go run(round%48, func() {
+			if rp.Stress == "close" {
+				s.Close()
+			} else {
+				s.CloseWrite()
+			}
+		})
+		for armed.Load() != 2 {
+			runtime.Gosched()
+		}
+		goFlag.Store(true)
+		wg.Wait()
+		st := s.State()
+		if st != stream.StateClosed || s.CanWrite() {
+			c.Fail("state-overwritten-by-stale-transition", fmt.Sprintf("%s: round %d: remote FIN || local %s both returned, state = %s, CanWrite = %v (must be CLOSED, false)",
+				rp.Name, round, rp.Stress, st, s.CanWrite()), rp)
+			cancel()
+			<-readerDone
+			return
+		}
+		cancel()
+		<-readerDone
+		m.RemoveStream(id)
+	}
+	c.Count("stress:" + rp.Stress)
 }
 
 const maxID = 3
@@ -637,7 +777,14 @@ func TestVerif(t *testing.T) {
 			t.Fatal(err)
 		}
 		rp.Obs = nil
-		runOne(rp)
+		switch {
+		case rp.Endpoint != "":
+			runEndpoint(c, rp)
+		case rp.Stress != "":
+			runStress(c, rp)
+		default:
+			runOne(rp)
+		}
 	} else {
 		for _, w := range witnesses() {
 			runOne(w)
@@ -652,9 +799,48 @@ func TestVerif(t *testing.T) {
 			runOne(Replay{Name: fmt.Sprintf("gen-%d", i), Steps: genScript(rnd, 4+rnd.Intn(16))})
 		}
 	}
+	// endpoint and stress cases come after every stream.Manager case (second mismatch list)
+	var xcoq []string
+	if c.Replay == "" {
+		fixed := [][]rh.FinFrame{
+			{{Fin: true, Tag: 61}},
+			{{Tag: 62}, {Fin: true, Tag: 63}},
+			{{Tag: 64}, {Tag: 65}, {Fin: true}},
+			{{Tag: 66}, {Tag: 67}},
+		}
+		root := vh.NewRand(int64(c.Rand.U64()))
+		n := c.N(6, 120)
+		for i := 0; i < len(fixed)*2+n; i++ {
+			kind := []string{"exit", "forward"}[i%2]
+			var fr []rh.FinFrame
+			if i < len(fixed)*2 {
+				fr = fixed[i/2]
+			} else {
+				r := root.Fork()
+				k := 1 + r.Intn(4)
+				for j := 0; j < k; j++ {
+					f := rh.FinFrame{Tag: uint64(7000 + i*10 + j)}
+					if r.Chance(1, 6) {
+						f.Tag = 0
+					}
+					if j == k-1 {
+						f.Fin = r.Chance(3, 4)
+					}
+					fr = append(fr, f)
+				}
+			}
+			if s, ok := runEndpoint(c, Replay{Name: fmt.Sprintf("endpoint-%d", i), Endpoint: kind, Frames: fr}); ok {
+				xcoq = append(xcoq, s)
+			}
+		}
+		runStress(c, Replay{Name: "fin-vs-closewrite", Stress: "closewrite", Rounds: c.N(500, 40000)})
+		runStress(c, Replay{Name: "fin-vs-close", Stress: "close", Rounds: c.N(500, 40000)})
+	}
 	var sb strings.Builder
 	sb.WriteString("From Coq Require Import List NArith Bool.\nFrom MM Require Import Model.Stream.\nImport ListNotations.\nLocal Open Scope N_scope.\n")
 	sb.WriteString("Definition cases : list case := \n" + vh.CoqList(coq) + ".\n")
+	sb.WriteString("Definition xcases : list xcase := \n" + vh.CoqList(xcoq) + ".\n")
 	sb.WriteString("Definition M := Eval vm_compute in mismatches cases.\nPrint M.\n")
+	sb.WriteString(fmt.Sprintf("Definition MX := Eval vm_compute in xmismatches_from %s xcases.\nPrint MX.\n", vh.CoqN(uint64(len(coq)))))
 	c.WriteCasesV("cases.v", sb.String())
 }
